@@ -60,3 +60,10 @@ CLAIMED["C03"] = dict(category=_MC,
          "and for every policy recomputes its outcome class on all 960 conformant environments, comparing with the real evaluator's classes and the real validator's verdicts.",
     note="bounded: one schema and its 960-environment universe, generated programs only; environments are accepted by the library's own validation (checked each run). "
          "Node-by-node static-type inhabitation of the typed AST is not yet compared.")
+ENGINES[0]["serves_properties"].append("C13")
+CLAIMED["C13"] = dict(category=_MC,
+    text="Partial.tla states the soundness relation of partial authorization over completions (decision in {None, Decision(c)}; must <= Reasons(c) <= may; definitely "
+         "satisfied/errored/false policies have that outcome; reauthorize(c) = authorize(c)). TLC generates ~23500 policy sets whose conditions mix known atoms of every error "
+         "class with atoms over unknown principal/resource/context-attribute/entity-attribute values in 6 unknown modes, with the complete completion set of each mode; the real "
+         "is_authorized_partial, reauthorize_with_bindings and is_authorized are run and TLC re-derives the reference answer for every completion.",
+    note="bounded by the atom pools, 6 modes and the completion domains of MC_Partial.tla; partial entity stores and an unknown action are not generated. Residual shapes are never compared.")
